@@ -227,6 +227,21 @@ def hashKey (self : RD) : Option (Int × Int) × List Int × List (Option Int) :
     self.microseconds, self.leapdays],
    [self.year, self.month, self.day, self.hour, self.minute, self.second, self.microsecond])
 
+/-- one element of the tuple handed to `hash`, in the order of the source -/
+inductive HashElt where
+  | wd (w : Option (Int × Int))
+  | int (i : Int)
+  | opt (o : Option Int)
+  deriving DecidableEq, Repr, Inhabited
+
+/-- the hashed tuple element by element, in source order (`hashKey` is the same content grouped by type) -/
+def hashList (self : RD) : List HashElt :=
+  [.wd (self.weekday.map (fun w => (w.1, orInt w.2 1))),
+   .int self.years, .int self.months, .int self.days, .int self.hours, .int self.minutes, .int self.seconds,
+   .int self.microseconds, .int self.leapdays,
+   .opt self.year, .opt self.month, .opt self.day, .opt self.hour, .opt self.minute, .opt self.second,
+   .opt self.microsecond]
+
 /-! ## normal form -/
 
 /-- `_has_time` as `_fix` computes it from the other fields -/
